@@ -140,8 +140,13 @@ class HashClient:
             client.client_class = self.client_class
 
         key = self._make_client_key(server)
+        replaced = self.clients.get(key)
         self.clients[key] = client
         self.hasher.add_node(key)
+        if replaced is not None:
+            # e.g. a server brought back into rotation: the client it had
+            # before may still hold a connection
+            replaced.close()
 
     def remove_server(self, server, port=None) -> None:
         # To maintain backward compatibility, if a port is provided, assume
